@@ -353,8 +353,13 @@ func poolScenario(threads int, compress bool) Scenario {
 		for t := 1; t <= threads; t++ {
 			t := t
 			hs = append(hs, sched.GoJoinable(fmt.Sprintf("codec%d", t), func() {
-				payload := bytes.Repeat([]byte{byte(0x10 * t)}, 10+t)
 				for round := 0; round < 2; round++ {
+					// one payload below the threshold (sent uncompressed inside the compressed
+					// format) and one above it, so both receive paths share the pools
+					payload := bytes.Repeat([]byte{byte(0x10*t + round)}, 10+t)
+					if (round+t)%2 == 0 {
+						payload = payload[:3+t]
+					}
 					var wire bytes.Buffer
 					p := pk.Packet{ID: int32(t), Data: payload}
 					if err := p.Pack(&wire, threshold); err != nil {
